@@ -19,14 +19,28 @@ from .spawn_cases import callbacks
 COMBOS = [("cms", "hh", "hll"), ("cms", "hh"), ("cms", "hll"), ("hh", "hll"), ("cms",), ("hh",), ("hll",)]
 
 
+EXC_NAMES = [None, None, "MemoryError", "ConnectionError", "ConnectionResetError", "TimeoutError", "InterruptedError", "OSError", "KeyError", "StopIteration",
+             "ArithmeticError", "UnicodeDecodeError"]
+
+
 def gen_items(rng, n_items, keys, marks=None, sleep=False):
     items = []
+    # some workloads count huge numbers of records per item with NumPy integers (totals beyond 2^53 must stay exact)
+    huge_records = n_items <= 12 and rng.random() < 0.08
     for i in range(n_items):
         ks = []
         for _ in range(int(rng.integers(0, 5))):
             ks.append([hx(keys[int(rng.integers(0, len(keys)))]), pick(rng, [1, 1, 2, 3, 10])])
-        items.append({"i": i, "keys": ks, "records": int(rng.integers(0, 4)), "mark": (marks or {}).get(i),
-                      "sleep_ms": int(rng.integers(0, 300)) if sleep else 0, "ret": pick(rng, ["int", "int", "np.int64", "np.uint32"])})
+        it = {"i": i, "keys": ks, "records": int(rng.integers(0, 4)), "mark": (marks or {}).get(i),
+              "sleep_ms": int(rng.integers(0, 300)) if sleep else 0, "ret": pick(rng, ["int", "int", "np.int64", "np.uint32"])}
+        if huge_records:
+            it["records"] = 2**54 + 1 + int(rng.integers(0, 3))
+            it["ret"] = pick(rng, ["np.int64", "np.int64", "int"])
+        if it["mark"] and str(it["mark"]).startswith("raise") and it["mark"] != "raise_custom":
+            it["exc"] = pick(rng, EXC_NAMES)
+        if rng.random() < 0.15:
+            it["hold_view"] = True
+        items.append(it)
     return items
 
 
